@@ -404,6 +404,12 @@ def do_replay(path, repo):
 
 
 def main(argv=None):
+    # violation texts quote what went over the wire, lone surrogates included
+    for st in (sys.stdout, sys.stderr):
+        try:
+            st.reconfigure(errors="backslashreplace")
+        except Exception:
+            pass
     ap = argparse.ArgumentParser(prog="check")
     ap.add_argument("what")
     ap.add_argument("--tier", default=os.environ.get("VERIF_TIER", "quick"),
